@@ -82,9 +82,8 @@ type Upstream struct {
 	aliasCh chan map[uint32]*message.DataID
 	resCh   chan []*message.UpstreamChunkResult
 
-	dpgCh                   chan *DataPointGroup
-	explicitlyFlushCh       chan (<-chan struct{})
-	explicitlyFlushResultCh chan error
+	dpgCh             chan *DataPointGroup
+	explicitlyFlushCh chan flushRequest
 
 	closeTimeout time.Duration
 	sequence     *sequenceNumberGenerator
@@ -348,6 +347,11 @@ func (u *Upstream) run(isResume bool) error {
 	return eg.Wait()
 }
 
+// flushRequest is one explicit Flush call: the flush loop answers on the request's own channel.
+type flushRequest struct {
+	result chan error
+}
+
 func (u *Upstream) flushLoop(ctx context.Context) {
 	ticker, stop := u.Config.FlushPolicy.Ticker()
 	defer stop()
@@ -359,12 +363,10 @@ func (u *Upstream) flushLoop(ctx context.Context) {
 				u.logger.Errorf(u.ctx, "failed to flush: %+v", err)
 			}
 			return
-		case remoteDone := <-u.explicitlyFlushCh:
-			select {
-			case u.explicitlyFlushResultCh <- u.flush(ctx):
-			case <-remoteDone:
-			case <-ctx.Done():
-			}
+		case req := <-u.explicitlyFlushCh:
+			// the result goes to the caller that made this request (buffered: never blocks), never to a
+			// later caller that happens to be waiting as well
+			req.result <- u.flush(ctx)
 			continue
 		case <-ticker:
 			u.flush(ctx)
@@ -396,8 +398,9 @@ func (u *Upstream) Flush(ctx context.Context) error {
 	if u.isClosed() {
 		return errors.ErrStreamClosed
 	}
+	resultCh := make(chan error, 1)
 	select {
-	case u.explicitlyFlushCh <- ctx.Done():
+	case u.explicitlyFlushCh <- flushRequest{result: resultCh}:
 	case <-u.ctx.Done():
 		return errors.ErrStreamClosed
 	case <-ctx.Done():
@@ -408,7 +411,7 @@ func (u *Upstream) Flush(ctx context.Context) error {
 		return ctx.Err()
 	case <-u.ctx.Done():
 		return errors.ErrStreamClosed
-	case err := <-u.explicitlyFlushResultCh:
+	case err := <-resultCh:
 		return err
 	}
 }
